@@ -5,7 +5,7 @@ From Coq Require Import List NArith Bool.
 From XmlRs Require Import Base.CPred Spec.XPathSyntax.
 From XmlRs Require Import Model.XPathAst Model.XDoc Model.XPathEval.
 From XmlRs Require Import Proofs.XPathParseMain Proofs.XPathCanon Proofs.XPathDocCheck Proofs.XPathExamples Proofs.XPathWitness
-  Proofs.XPathAbsInv Proofs.XPathSpellingMain.
+  Proofs.XPathAbsInv Proofs.XPathSpellingLight Proofs.XPathSpellingMain.
 Import ListNotations.
 Local Open Scope N_scope.
 
@@ -144,3 +144,29 @@ Proof.
   exists c08_doc, ex_default_ns, ex_n1, (sp_of ex_n1), (sp_of ex_n2), (XNodes [3]).
   repeat (split; [first [assumption|exact c08_doc_inv]|]). intros v'. rewrite Q2. discriminate.
 Qed.
+
+(** ** an instance of [spelling_irrelevant_light]: the namespace axis, an error *)
+
+(** [//namespace::*[1][$v]/..] and [( //namespace::*[position() = 1][($v)]/parent::node() )] *)
+Definition ex_l1 : xexpr :=
+  XPath (SAbs SDSlash) (XStep (AFull XNamespace) TAny [XPathSyntax.XNum [49]; XVar (QN None [118])]) [(SSlash, XDotDot)].
+Definition ex_l2 : xexpr :=
+  XParen (XPath (SAbs SDSlash) (XStep (AFull XNamespace) TAny [XBin BEq position_call (XPathSyntax.XNum [49]); XParen (XVar (QN None [118]))])
+    [(SSlash, XStep (AFull XParent) (TType KNode) [])]).
+
+Example ex_light_hypotheses :
+  ok_spelling ex_l1 (sp_of ex_l1) /\ ok_spelling ex_l1 (sp_of ex_l2) /\
+  no_fname_case ex_l1 = true /\ no_fname_case ex_l2 = true /\ lnorm ex_l1 = lnorm ex_l2 /\ xnons ex_l1 = false.
+Proof.
+  split; [repeat split; vm_compute; reflexivity|]. split; [repeat split; vm_compute; reflexivity|].
+  repeat split; vm_compute; reflexivity.
+Qed.
+
+Example ex_light_same : query_model ex_doc [] (spell ex_l1 (sp_of ex_l1)) = query_model ex_doc [] (spell ex_l1 (sp_of ex_l2)).
+Proof.
+  destruct ex_light_hypotheses as (H1 & H2 & N1 & N2 & E & _).
+  exact (spelling_irrelevant_light_proof ex_doc [] ex_l1 (sp_of ex_l1) (sp_of ex_l2) H1 H2 N1 N2 E eq_refl).
+Qed.
+
+Example ex_light_value : query_model ex_doc [] (spell ex_l1 (sp_of ex_l1)) = QError (XErrNotFoundVariable [118]).
+Proof. vm_compute. reflexivity. Qed.
